@@ -136,6 +136,9 @@ func runC01(c *fw.Ctx) {
 			}
 			k.Case = c01case{Family: "random-dag", Prog: p, Roots: roots}
 			k.Sample()
+			for _, in := range p {
+				k.Count("program_ops_"+in.Op, 1)
+			}
 			tr := p.TrackedSet()
 			for _, root := range roots {
 				fan, reconv, depth := progStats(p, root)
